@@ -273,7 +273,7 @@ fn negamax(game: &mut Game, depth: u8, alpha: i32, beta: i32, envir: &mut Search
     //Mate & Draw
     if legal_moves == 0 {
         #[cfg(jence_verif)]
-        crate::verif_driver::on_verdict(in_check);
+        crate::verif_driver::on_verdict(in_check, envir.ply);
         if in_check {
             return -MATE_VALUE + envir.ply as i32;
         }
